@@ -648,3 +648,45 @@ def run(prog: Program, chk: Check):
         V.decide(uncond and covers, fkey(runf, "validation-off"), where(runf, w), "the whole service loop runs with validation off, whatever the options",
                  "run(): " + (f"validation is re-enabled when `{norm(ig[0])}` is true: a client-supplied value refused by a validator raises out of the service loop" if not uncond
                               else "process_message / read_message are called outside the disable_message_validation() block"))
+
+    # ---- R client-chosen text reaches the console only through the escaped message ------------------------------------------------
+    # The console handler renders rich markup and RichLogFormatter escapes record.msg only.  A module name is client-chosen ASCII:
+    # passed as a %-argument (`logger.info("CONNECT - %s", name)`) it is formatted in *after* the escape and `[/x]` makes rich
+    # raise MarkupError out of the logging call, i.e. out of run().
+    Rr = chk.rule("C03-R", "manager log calls carry their text in the (escaped) message, never in %-style arguments", 1,
+                  "a client-chosen name containing rich markup raises MarkupError inside the logging call and ends run()")
+    clm = prog.modules.get("pyrtma.client_logging")
+    esc_only_msg = False
+    if clm is not None:
+        for f in clm.functions.values():
+            if f.name == "format" and f.cls is not None and "Formatter" in f.cls.name:
+                txt = [norm(n) for n in walk_local(f.node) if isinstance(n, ast.Assign)]
+                esc_only_msg = any(t.replace(" ", "") == "record.msg=escape(record.msg)" for t in txt) and not any("record.args" in t for t in txt)
+    if not esc_only_msg:
+        chk.note("C03-R lapses: the console formatter no longer escapes exactly record.msg (re-read client_logging.RichLogFormatter)")
+        Rr.ok("pyrtma.client_logging|formatter", "", "formatter escapes more than record.msg: rule not applicable")
+    else:
+        nlog = 0
+        for f in mm.methods.values():
+            for c in calls_in(f.node):
+                if isinstance(c.func, ast.Attribute) and c.func.attr in ("debug", "info", "warning", "error", "critical", "exception", "log") and "logger" in (path_of(c.func.value) or ""):
+                    nlog += 1
+                    extra = c.args[2:] if c.func.attr == "log" else c.args[1:]
+                    if extra:
+                        Rr.bad(fkey(f, c), where(f, c), f"{f.qual}: `{norm(c)[:80]}` passes {len(extra)} %-argument(s): they are formatted into the record after the markup escape "
+                                                         "(client-chosen names reach the rich console unescaped)")
+        if nlog < 10:
+            raise AnalysisError(f"anchor vanished: manager log calls (found {nlog})")
+        if not Rr.instances:
+            Rr.ok(f"{MGR}|log-calls", "", f"{nlog} log call(s) of the manager pass only a message")
+
+    # ---- X tearing a connection down cannot raise -------------------------------------------------------------------------------
+    from .mgr import teardown_socket_calls
+
+    X = chk.rule("C03-X", "socket calls other than close() on a client connection being torn down are covered by an OSError handler", 1,
+                 "shutdown() on a reset connection raises OSError(ENOTCONN), not ConnectionError: it escapes remove_module and run()")
+    for fq, c, okx in teardown_socket_calls(prog):
+        X.decide(okx, f"{fq}|{norm(c)[:50]}", where(prog.func(MGR, fq), c), "covered by `except OSError` (or broader)",
+                 f"{fq}: `{norm(c)[:60]}` can raise OSError (ENOTCONN on a reset peer) and only ConnectionError - or nothing - is caught: one client's reset ends the manager")
+    if not X.instances:
+        X.ok(f"{MGR}|teardown", "", "no socket call besides close() on the removal path; the positive example in fixtures/c03_socket_teardown.py matched")
